@@ -727,6 +727,62 @@ def match_F6(f):
 
 
 # ------------------------------------------------------------------ C19
+def capture_rich_fens(rnd, n):
+    """positions with very many legal captures: pawns on the seventh between pieces on the eighth (every capture counts four times, once
+    per promotion piece), plus a few attackers and targets elsewhere; both colours"""
+    out = []
+    for _ in range(n):
+        board = [[None] * 8 for _ in range(8)]          # board[rank][file], rank 0 = first rank
+        calm = rnd.random() < 0.6       # only knights as targets and no extra officers: the other side has (almost) no recapture, the tree stays tiny
+        if rnd.random() < 0.6:
+            par = rnd.randrange(2)
+            files7 = [f for f in range(8) if f % 2 == par]              # alternating: every pawn between two targets
+            dens = 0.95
+        else:
+            files7 = [f for f in range(8) if rnd.random() < 0.6]
+            dens = 0.75
+        heavy = rnd.randrange(8) if rnd.random() < 0.7 else -1       # one target on the eighth worth more than the others
+        for f in files7:
+            board[6][f] = "P"
+        for f in range(8):
+            if f not in files7 and rnd.random() < dens:
+                board[7][f] = (rnd.choice("rq") if f == heavy or f == heavy + 1 else "n") if calm else rnd.choice("nnnbrq")
+        # one or two more rows of pawns facing minor pieces in mid-board (one capture each way)
+        for _ in range(rnd.randrange(0, 3)):
+            r = rnd.randrange(1, 5)
+            par = rnd.randrange(2)
+            for f in range(8):
+                if board[r][f] is None and board[r + 1][f] is None:
+                    if f % 2 == par:
+                        board[r][f] = "P" if rnd.random() < 0.8 else None
+                    else:
+                        board[r + 1][f] = ("n" if calm else rnd.choice("nnb")) if rnd.random() < 0.8 else None
+        free = [(r, f) for r in range(0, 6) for f in range(8) if board[r][f] is None]
+        rnd.shuffle(free)
+        if len(free) < 10:
+            continue
+        (wr, wf), (br, bf) = free.pop(), free.pop()
+        board[wr][wf], board[br][bf] = "K", "k"
+        for _ in range(rnd.randrange(0, 3 if calm else 7)):
+            r, f = free.pop()
+            board[r][f] = rnd.choice("BNn" if calm else ("QRBNnnbp" if 0 < r < 7 else "QRBNnnb"))
+        rows = []
+        for r in range(7, -1, -1):
+            row, e = "", 0
+            for f in range(8):
+                if board[r][f] is None:
+                    e += 1
+                else:
+                    row += (str(e) if e else "") + board[r][f]
+                    e = 0
+            rows.append(row + (str(e) if e else ""))
+        fen = "/".join(rows) + " w - - 0 1"
+        if rnd.random() < 0.5:
+            fen = flip_fen_colour(fen)
+        out.append(fen)
+    return out
+
+
 def run_C19(res):
     g, pl, sp, co = sizes(res, (12, 70, 1500, 300), (200, 120, 40000, 3000))
     rnd = random.Random(res.seed)
@@ -736,6 +792,21 @@ def run_C19(res):
     npro = 150 * res.escalate if res.tier == "quick" else 1500
     promo = [l for l in run_driver([f"gpattern {res.seed + 31} 2 {npro} 0", f"gpattern {res.seed + 32} 2 {npro // 3} 1"]) if l and l != "bad-op"]
     promo = list(dict.fromkeys(promo))
+    # capture-rich nodes (more than 20 / 32 / 40 legal captures): keep those the generator likes best
+    rich = [l for l in run_driver(["feninw " + f for f in capture_rich_fens(rnd, 3000 * res.escalate if res.tier == "quick" else 40000)])
+            if l not in ("PANIC", "bad-op")]
+    ncap = [0 if c in ("PANIC", "DIED") else (0 if c.strip() == "-" else len(c.split())) for c in run_hx_par(["caps " + p for p in rich])]
+    rich = [p for p, k in sorted(zip(rich, ncap), key=lambda x: -x[1]) if k >= 20][: (400 if res.tier == "quick" else 4000)]
+    okr = in_domain(rich)
+    rich = [p for p, o in zip(rich, okr) if o]
+    # only those whose whole capture tree the budgeted specification minimax can enumerate (nothing unbounded is ever sent to the engine)
+    small = run_driver_par([f"sqmin {p} 2500" for p in rich])
+    rich = [p for p, v in zip(rich, small) if v != "BIG"][: (120 if res.tier == "quick" else 1500)]
+    rich_set = set(rich)
+    res.count("capture_rich_positions_20_plus_captures", len(rich))
+    caps_of = dict(zip([l for l in rich], [0] * len(rich)))
+    res.count("capture_rich_positions_33_plus_captures_generated", sum(1 for k in ncap if k >= 33))
+    promo = rich + promo
     ps = promo + [p for p in ps if p not in set(promo)]
     ok = in_domain(ps)
     ps = [p for p, o in zip(ps, ok) if o]
@@ -747,7 +818,7 @@ def run_C19(res):
     # tree. Keep positions with at most 16 men or at most 4 legal captures (the playout positions are kept by the second test mostly).
     feats = run_driver_par(["feat " + p for p in ps])
     ps = [p for p, f in zip(ps, feats)
-          if bin(Pos(p).c0 | Pos(p).c1).count("1") <= 16 or int(dict(kv.split("=") for kv in f.split())["caps"]) <= 4]
+          if p in rich_set or bin(Pos(p).c0 | Pos(p).c1).count("1") <= 16 or int(dict(kv.split("=") for kv in f.split())["caps"]) <= 4]
     full = run_hx_par([f"qs {p} -10000000 10000000" for p in ps])
     keep = [(p, f) for p, f in zip(ps, full) if f not in ("PANIC", "DIED") and int(f.split()[1]) <= 3000]
     rnd.shuffle(keep)
